@@ -27,4 +27,5 @@ func init() {
 	register("C02", "exploration", C02)
 	register("C09", "exploration", C09)
 	register("C03", "exploration", C03)
+	register("C12", "exploration", C12)
 }
